@@ -171,18 +171,18 @@ Lemma cells_grid bad row : forall cols s icol bar s' b base cur done,
   step_cells bad row s icol cols bar = IOk (s', b) ->
   exists cur', grows (i_doc s) (i_doc s') /\ i_stage s' = i_stage s /\ i_row s' = i_row s /\
     d_stages (i_doc s') = base ++ cur_stage cur' /\ Forall2 (cell_rel bad (i_doc s') (i_row s)) cur' (done ++ cols) /\
-    Forall (fun id => id < List.length (d_nodes (i_doc s'))) cur' /\ (cols <> [] -> cur' <> []) /\ (cols = [] -> cur' = cur).
+    Forall (fun id => id < List.length (d_nodes (i_doc s'))) cur' /\ cur' = cur ++ seq (List.length (d_nodes (i_doc s))) (List.length cols).
 Proof.
   induction cols as [|c cols IH]; intros s icol bar s' b base cur done Hs Hd Hst Hsg F Hb; cbn [step_cells].
   - intros H. injection H as <- <-. exists cur.
     split; [apply grows_refl|]. split; [reflexivity|]. split; [reflexivity|]. split; [exact Hsg|].
-    split; [rewrite app_nil_r; exact F|]. split; [exact Hb|]. split; [intros X; contradiction | reflexivity].
+    split; [rewrite app_nil_r; exact F|]. split; [exact Hb|]. cbn [List.length seq]. now rewrite app_nil_r.
   - destruct (step_cell bad row s icol c) as [[s1 b1]| |] eqn:Hc; try discriminate.
     destruct (step_cell_grid _ _ _ _ _ _ _ Hs Hd Hc) as [G1 [L1 [R1 [Er1 [Es1 St1]]]]].
     pose proof (step_cell_ok _ _ _ _ _ _ _ Hs Hc) as Hs1. pose proof (step_cell_hdr _ _ _ _ _ _ _ Hs Hd Hc) as Hd1.
     rewrite Hst in St1. rewrite (stages_after_cur base cur _ _ Hsg) in St1.
     intros H.
-    destruct (IH s1 (S icol) (bar || b1) s' b base (cur ++ [List.length (d_nodes (i_doc s))]) (done ++ [c]) Hs1 Hd1) as [cur' [G2 [E2 [Er2 [St2 [F2 [B2 [N2 K2]]]]]]]].
+    destruct (IH s1 (S icol) (bar || b1) s' b base (cur ++ [List.length (d_nodes (i_doc s))]) (done ++ [c]) Hs1 Hd1) as [cur' [G2 [E2 [Er2 [St2 [F2 [B2 K2]]]]]]].
     + congruence.
     + replace (cur_stage (cur ++ [List.length (d_nodes (i_doc s))])) with [cur ++ [List.length (d_nodes (i_doc s))]] by (destruct cur; reflexivity).
       exact St1.
@@ -194,9 +194,7 @@ Proof.
     + exact H.
     + exists cur'. rewrite <- app_assoc in F2. cbn [app] in F2. rewrite Er1 in *.
       split; [eapply grows_trans; eassumption|]. split; [congruence|]. split; [congruence|]. split; [exact St2|]. split; [exact F2|].
-      split; [exact B2|]. split.
-      * intros _. destruct cols as [|c2 cols2]; [rewrite (K2 eq_refl); destruct cur; discriminate | apply N2; discriminate].
-      * intros X; discriminate.
+      split; [exact B2|]. rewrite K2, L1, <- app_assoc. reflexivity.
 Qed.
 
 (* ---- one line *)
@@ -221,44 +219,45 @@ Lemma step_row_grid bad s row s' : state_ok s -> hdr_ok (i_doc s) -> List.length
   row <> [] -> step_row bad s row = IOk s' ->
   exists ids, grows (i_doc s) (i_doc s') /\ d_stages (i_doc s') = d_stages (i_doc s) ++ [ids] /\
     row_rel bad (i_doc s') (i_row s) ids row /\ Forall (fun id => id < List.length (d_nodes (i_doc s'))) ids /\
-    i_row s' = S (i_row s) /\ i_stage s' = S (i_stage s).
+    i_row s' = S (i_row s) /\ i_stage s' = S (i_stage s) /\
+    (startswith "!!" (hd ""%string row) = false -> ids = seq (List.length (d_nodes (i_doc s))) (List.length row)).
 Proof.
   intros Hs Hd Hlen Hne. pose proof Hs as [T Hn Hp Hh]. unfold step_row, row_rel. destruct row as [|first rest]; [contradiction|].
   set (prev := match i_next s with [] => i_prev s | n :: l0 => Some (n :: l0) end).
   assert (Hprev : match prev with Some l => ids_ok (i_doc s) l | None => True end).
   { unfold prev. destruct (i_next s) eqn:E; [exact Hp | exact Hn]. }
   clearbody prev.
-  destruct (startswith "!!" first).
+  cbn [hd]. destruct (startswith "!!" first).
   - destruct (add_node _ _ _ _ _ _ _) as [[d1 id]| |] eqn:Ha; try discriminate. cbn [i_doc i_prehdr] in Ha.
     destruct (add_node_spec _ _ _ _ _ _ _ _ _ T Hh Ha) as [Eid [El [_ [_ [Et [_ [_ [_ Hold]]]]]]]].
     pose proof (add_node_stages _ _ _ _ _ _ _ _ _ Ha) as Es. rewrite Hlen, Nat.eqb_refl in Es.
     intros H. injection H as <-. cbn [i_doc i_row i_stage]. exists [id].
     split; [eapply grows_add; eassumption|]. split; [exact Es|]. split; [exists id; split; [reflexivity | exact Et]|].
-    split; [constructor; [lia | constructor]|]. split; reflexivity.
+    split; [constructor; [lia | constructor]|]. split; [reflexivity|]. split; [reflexivity | discriminate].
   - set (s0 := {| i_doc := i_doc s; i_row := i_row s; i_stage := S (i_stage s); i_next := []; i_prev := prev; i_prehdr := i_prehdr s |}).
     assert (Hs0 : state_ok s0) by (apply state_ok_intro; [exact T | apply ids_ok_nil | exact Hprev | exact Hh]).
     destruct (step_cells bad (first :: rest) s0 0 (first :: rest) false) as [[s1 bar]| |] eqn:Hc; try discriminate.
     assert (X : exists cur', grows (i_doc s0) (i_doc s1) /\ i_stage s1 = i_stage s0 /\ i_row s1 = i_row s0 /\
               d_stages (i_doc s1) = d_stages (i_doc s) ++ cur_stage cur' /\ Forall2 (cell_rel bad (i_doc s1) (i_row s0)) cur' ([] ++ first :: rest) /\
-              Forall (fun id => id < List.length (d_nodes (i_doc s1))) cur' /\ (first :: rest <> [] -> cur' <> []) /\ (first :: rest = [] -> cur' = [])).
+              Forall (fun id => id < List.length (d_nodes (i_doc s1))) cur' /\ cur' = [] ++ seq (List.length (d_nodes (i_doc s0))) (List.length (first :: rest))).
     { apply (cells_grid bad (first :: rest) (first :: rest) s0 0 false s1 bar (d_stages (i_doc s)) [] [] Hs0 Hd).
       - cbn [s0 i_stage]. symmetry. exact Hlen.
       - cbn [s0 i_doc cur_stage]. now rewrite app_nil_r.
       - constructor.
       - constructor.
       - exact Hc. }
-    destruct X as [cur [G [Est [Er [St [F [B [N _]]]]]]]].
+    destruct X as [cur [G [Est [Er [St [F [B N]]]]]]].
     cbn [s0 i_doc i_stage i_row app] in *.
     intros H. injection H as <-. cbn [i_doc i_row i_stage]. exists cur.
-    assert (Hcur : cur <> []) by (apply N; discriminate).
+    assert (Hcur : cur <> []) by (rewrite N; discriminate).
     assert (Ecs : cur_stage cur = [cur]) by (destruct cur; [contradiction | reflexivity]). rewrite Ecs in St.
     destruct bar.
     + split; [eapply grows_trans; [exact G | apply grows_same; hdr_same]|]. cbn [push_mst d_stages d_nodes].
       split; [exact St|]. split.
       * assert (Hd1 : hdr_ok (i_doc s1)) by (eapply step_cells_hdr; [exact Hs0 | exact Hd | exact Hc]).
         eapply (cells_rel_grows bad (i_doc s1)); [exact Hd1 | apply grows_same; hdr_same | exact B | exact F].
-      * split; [exact B|]. split; [now rewrite Er | exact Est].
-    + split; [exact G|]. split; [exact St|]. split; [exact F|]. split; [exact B|]. split; [now rewrite Er | exact Est].
+      * split; [exact B|]. split; [now rewrite Er|]. split; [exact Est | intros _; exact N].
+    + split; [exact G|]. split; [exact St|]. split; [exact F|]. split; [exact B|]. split; [now rewrite Er|]. split; [exact Est | intros _; exact N].
 Qed.
 
 (* ---- all the lines *)
@@ -305,7 +304,7 @@ Proof.
   - cbn in H. injection H as <-. cbn [nonempty_row]. rewrite app_nil_r. split; [exact Hs|]. split; [exact Hd|]. exists sts. repeat split; assumption.
   - cbn [nonempty_row].
     assert (Hlen : List.length (d_stages (i_doc s)) = S (i_stage s)) by (rewrite Est, Es; reflexivity).
-    destruct (step_row_grid bad s (first :: rest) s' Hs Hd Hlen ltac:(discriminate) H) as [ids [G [St [RR [Bi [Er' Es']]]]]].
+    destruct (step_row_grid bad s (first :: rest) s' Hs Hd Hlen ltac:(discriminate) H) as [ids [G [St [RR [Bi [Er' [Es' _]]]]]]].
     split; [eapply step_row_ok; eassumption|]. split; [eapply step_row_hdr; eassumption|].
     exists (sts ++ [ids]). split; [rewrite St, Est; reflexivity|]. split.
     + apply rows_rel_snoc; [eapply rows_rel_grows; eassumption|]. rewrite Er in RR. exact RR.
